@@ -1,11 +1,40 @@
-"""C04 — uses the shared scaled_integer harness (C01.h) with its own section."""
-import os, sys
+"""C04 — conversions.  Integer<->integer via the shared scaled harness, plus floating point."""
+import os, random, sys
 sys.path.insert(0, os.path.dirname(os.path.abspath(__file__)))
 import C01
 
+FT = {'f32': 'float', 'f64': 'double', 'f80': 'long double'}
+
+
+def fgrid(tier, seed):
+    rnd = random.Random(seed * 4099 + 4)
+    reps = ['i8', 'u8', 'i16', 'u16', 'i32', 'u32', 'i64', 'u64']
+    out = [('i16', -8, 2, 'f32'), ('u8', -4, 2, 'f64'), ('i32', -16, 2, 'f32'), ('i64', -31, 2, 'f64'), ('i32', 0, 2, 'f80'),
+           ('u32', 10, 2, 'f32'), ('i16', -1, 10, 'f64'), ('i64', -70, 2, 'f80'), ('u64', 70, 2, 'f64'), ('i8', -7, 2, 'f32')]
+    n = 20 if tier == 'quick' else 90
+    while len(out) < n:
+        r = rnd.choice(reps)
+        rx = rnd.choice([2, 2, 2, 2, 10])
+        e = rnd.choice([-70, -53, -40, -31, -24, -16, -8, -4, -1, 0, 1, 5, 20, 40, 70]) if rx == 2 else rnd.choice([-4, -2, -1, 0, 1, 2])
+        c = (r, e, rx, rnd.choice(list(FT)))
+        if c not in out:
+            out.append(c)
+    return out
+
 
 def tus(tier, seed):
-    return C01.tus(tier, seed, section='C04')
+    res = C01.tus(tier, seed, section='C04')
+    combos = fgrid(tier, seed)
+    hdr = os.path.join(os.path.dirname(os.path.abspath(__file__)), 'C01.h')
+    per = 3
+    for i in range(0, len(combos), per):
+        body = '#define SEC_C04F 1\n#include "%s"\nint main(){ install(); Rng rng(seed_from_env()+%d);\n' % (hdr, 500 + i)
+        for (r, e, rx, f) in combos[i:i + per]:
+            body += '  gof<%s, %d, %d, %s>(rng);\n' % (C01.CT[r], e, rx, FT[f])
+        body += '}\n'
+        comp = 'clang++' if (tier == 'thorough' and (i // per) % 3 == 2) else 'g++'
+        res.append(dict(name='C04F_%d' % (i // per), src=body, compiler=comp))
+    return res
 
 
-RULE = C01.RULE
+RULE = C01.RULE + "; floating point: all values of 8/16-bit reps, lattice + 200 random for wider reps (to float), and floats around every lattice value +- 0, 1/4, 1/2, 3/4, 1 unit plus structured floats (from float)"
